@@ -2,6 +2,9 @@
 
 Correspondence (model coq/Toc/Sync.v, entry ``run_c06``): random and pattern histories of
 create / delete / move / copy (with and without metadata) / copyinto / attributes / attach
+(incl. path-REUSE shapes: move away and back, a->b->a chains, copy onto a vacated name,
+delete + re-create at the same path, swaps via a temporary name; datasets and groups with
+metadata at depth 1..3)
 (good schemas, unknown, auxiliary, failing schema export, failing provider lookup, invalid
 value, duplicates) / detach / reopen (writable, read-only file, ``restrict(read_only=True)``)
 / IH5 patch boundaries, run through ``MetadorContainer`` over ``h5py.File`` and ``IH5Record``.
@@ -352,6 +355,10 @@ def run(ctx: vlib.Ctx):
     nh = ctx.budget(40, 220)
     nops = ctx.budget(18, 26)
     hists = [T.gen_history(ctx.rng, ctx.rng.randint(8, nops)) for _ in range(nh)]
+    # path REUSE: a node with metadata reappears (move back, a->b->a, copy onto the vacated name,
+    # delete + re-create, swaps) at a path where one lived earlier in the same session
+    n_reuse = ctx.budget(12, 60)
+    hists += [T.gen_reuse_history(ctx.rng) for _ in range(n_reuse)]
     hists += T.pattern_histories()
     mcases = [["run", env, model_ops(h)] for h in hists]
     t0 = time.time()
@@ -449,7 +456,9 @@ def run(ctx: vlib.Ctx):
                    "distinct (driver, history prefix) actually executed; + every distinct real dump judged by the model's checker")
     all_ops = [op for h in hists for op in h]
     cov["input_distribution"] = {
-        "histories": len(hists), "pattern_histories": len(T.pattern_histories()), "ops_total": len(all_ops),
+        "histories": len(hists), "pattern_histories": len(T.pattern_histories()), "path_reuse_histories_random": n_reuse,
+        "path_reuse_pattern_histories": len(T.reuse_patterns()),
+        "moves_or_copies_onto_a_previously_used_path": _count_reuse(hists), "ops_total": len(all_ops),
         "op_kinds": _hist(op[0] for op in all_ops),
         "attach_schemas": _hist(op[2] for op in all_ops if op[0] == "sattach"),
         "attach_invalid_value": sum(1 for op in all_ops if op[0] == "sattach" and not op[4]),
@@ -497,6 +506,22 @@ def run(ctx: vlib.Ctx):
                       found_input=False)
     elif disagreements:
         ctx.notes.append(f"{len(disagreements)} model/impl disagreements (first: {str(disagreements[0])[:600]})")
+
+
+def _count_reuse(hists) -> int:
+    """Moves / copies / creations whose destination held a node earlier in the same history (spelled from "/")."""
+    n = 0
+    for h in hists:
+        gone = set()
+        for op in h:
+            if op[0] in ("move", "copy") and op[1] == "/":
+                if op[3].strip("/") in gone:
+                    n += 1
+                if op[0] == "move":
+                    gone.add(op[2].strip("/"))
+            elif op[0] == "del" and op[1] == "/":
+                gone.add(op[2].strip("/"))
+    return n
 
 
 def _hist(it):
